@@ -81,3 +81,23 @@ Definition has_nul (s : str) : bool := mem_N 0 s.
 Definition no_dotdot_component (s : str) : bool := negb (mem_str DOTDOT (components s)).
 Definition starts_with_slash (s : str) : bool :=
   match s with c :: _ => c =? SLASH | [] => false end.
+
+(* handlers/virtual.py Virtual.__init__: split at the first "?" if there is one, else at the
+   first "|" ; (selectorreal, selectorargs).  Without either, real = selector, args = "". *)
+Definition QMARK : N := 63.
+Definition PIPE : N := 124.
+Definition virtual_split (s : str) : str * str :=
+  match find [QMARK] s with
+  | Some i => (firstn i s, skipn (S i) s)
+  | None => match find [PIPE] s with
+            | Some i => (firstn i s, skipn (S i) s)
+            | None => (s, [])
+            end
+  end.
+(* handlers/url.py URLTypeRewriter: selector[2:] when len >= 3, s[0] = "/" and s[2] = "/" *)
+Definition rewriter_accepts (s : str) : bool :=
+  match s with
+  | a :: _ :: c :: _ => (a =? SLASH) && (c =? SLASH)
+  | _ => false
+  end.
+Definition rewriter_target (s : str) : str := skipn 2 s.
